@@ -593,12 +593,12 @@ func allocModel(segSize int) porcupine.Model {
 }
 
 type histWitness struct {
-	History int                  `json:"history_index"`
-	SegSize int                  `json:"segment_size"`
-	Ops     []map[string]any     `json:"operations"`
-	Partial [][]map[string]any   `json:"longest_partial_linearizations,omitempty"`
-	Final   string               `json:"final_table_second_mapping"`
-	Extra   []string             `json:"problems,omitempty"`
+	History int                `json:"history_index"`
+	SegSize int                `json:"segment_size"`
+	Ops     []map[string]any   `json:"operations"`
+	Partial [][]map[string]any `json:"longest_partial_linearizations,omitempty"`
+	Final   string             `json:"final_table_second_mapping"`
+	Extra   []string           `json:"problems,omitempty"`
 }
 
 type concStats struct {
